@@ -529,3 +529,41 @@ func zzH_c03_tables() {
 	}
 	vReach("end")
 }
+
+// H03-isoncurve-range: coordinates are field elements, integers in [0, p-1]: a pair whose x or y
+// is a curve point's coordinate plus or minus a multiple of p is not a point (it would be a
+// second encoding of the same point: a ciphertext or key-exchange message rewritten that way
+// must not be accepted), while the point itself and its negative are.
+//
+//verif:property C03
+//verif:property C02
+//verif:expect-reach end
+//verif:bound points G, [2]G, [3]G, [n-1]G and (0, y0); each coordinate shifted by +p, +2p or -p (one or both); bounded concrete execution of the real IsOnCurve
+//verif:outside other points; the use of IsOnCurve by Decrypt / the key exchange is decided on the abstract group (zzH_c02_*, zzH_c13_*)
+//verif:unwind 700
+func zzH_c03_isoncurve_range() {
+	c := P256Sm2()
+	p := sm2P256.P
+	y0, _ := new(big.Int).SetString("fd4511e81736a60f07e88a83d6cf5a167fae6d1a9c9330e76e232e00f5cdc154", 16)
+	type pt struct{ x, y *big.Int }
+	var pts []pt
+	for _, k := range []*big.Int{big.NewInt(1), big.NewInt(2), big.NewInt(3), new(big.Int).Sub(sm2P256.N, big.NewInt(1))} {
+		x, y := zzRefMul(k)
+		pts = append(pts, pt{x, y})
+	}
+	pts = append(pts, pt{new(big.Int), y0})
+	P := pts[vChoice("point", len(pts))]
+	vAssert("point-accepted", c.IsOnCurve(P.x, P.y))
+	vAssert("negative-accepted", c.IsOnCurve(P.x, new(big.Int).Sub(p, P.y)))
+	shifts := []*big.Int{new(big.Int), p, new(big.Int).Lsh(p, 1), new(big.Int).Neg(p)}
+	for i, dx := range shifts {
+		for j, dy := range shifts {
+			if i == 0 && j == 0 {
+				continue
+			}
+			x, y := new(big.Int).Add(P.x, dx), new(big.Int).Add(P.y, dy)
+			vAssert("coordinate-outside-the-field-rejected", !c.IsOnCurve(x, y))
+		}
+	}
+	vReach("end")
+}
